@@ -743,6 +743,7 @@ class TypedTree(Tree):
         self,
         target: IO[str] | str | Path,
         *,
+        compression: bool | int = False,
         mapper: SerializeMapperType | None = None,
         meta: dict | None = None,
         key_map: KeyMapType | bool = True,
@@ -774,6 +775,7 @@ class TypedTree(Tree):
 
             return super().save(
                 target,
+                compression=compression,
                 mapper=mapper,
                 meta=meta,
                 key_map=key_map,
